@@ -79,6 +79,16 @@ func main() {
 		os.Exit(2)
 	}
 	loadS := time.Since(start).Seconds()
+	// thorough: a second view of the tree for another GOARCH so that build-constrained files are analysed too
+	var alt *Ctx
+	if whole {
+		a, err := load(*repo, false, ov, "arm64")
+		if err != nil {
+			fmt.Fprintln(os.Stderr, "infrastructure failure (GOARCH=arm64 load):", err)
+			os.Exit(2)
+		}
+		alt = a
+	}
 	exit := 0
 	for _, id := range ids {
 		pstart := time.Now()
@@ -101,6 +111,28 @@ func main() {
 			}
 		}
 		extra := map[string]any{"load_s": loadS, "whole_program": whole}
+		if alt != nil {
+			ac := alt.fork(id, *tier)
+			func() {
+				defer func() {
+					if r := recover(); r != nil {
+						ac.clause(id+".internal", "engine", "checker panic", 0)
+						ac.unk("panic(GOARCH=arm64)", 0, fmt.Sprintf("checker panicked: %v", r))
+					}
+				}()
+				props[id].run(ac)
+			}()
+			nAlt := 0
+			for _, o := range ac.obs {
+				nAlt++
+				if o.st != Discharged {
+					o.Key = "GOARCH=arm64:" + o.Key
+					c.obs = append(c.obs, o)
+				}
+			}
+			extra["goarch_variants"] = []string{"amd64 (whole program, dependencies type-checked from source)", "arm64 (first-party syntax)"}
+			extra["obligations_arm64"] = nAlt
+		}
 		st := pstart
 		if len(ids) == 1 {
 			st = start
